@@ -87,6 +87,9 @@ def gen_worker(args):
         is_bytes = rng.random() < 0.35
         kinds = rng.choice([("bytes",), ("bytes", "bits"), ("bits",)]) if is_bytes else rng.choice([("str",), ("str", "regex"), ("str", "regex")])
         spec = gen_grammar.gen_spec(rng, kinds=kinds, depth=rng.randint(1, 3), n_nt=rng.randint(1, 4))
+        if rng.random() < 0.2:
+            spec = gen_grammar.gen_nullable_spec(rng)
+            is_bytes = 'b"' in spec
         try:
             fan = Fandango(spec)
             g = fan.grammar
